@@ -120,6 +120,7 @@ type Interp struct {
 	curPos  token.Pos
 	fresh   int
 	steps   int
+	storeEpoch int
 	gate      string // key of the branch condition controlling the merge being computed
 	gateExact bool   // the merge has exactly one live edge per side of that branch
 	gateSwap  bool   // the first merged value comes from the false side
@@ -143,6 +144,7 @@ func (ip *Interp) Reset() {
 	ip.stack = ip.stack[:0]
 	ip.acts = ip.acts[:0]
 	ip.steps = 0
+	ip.storeEpoch = 0
 }
 
 func (ip *Interp) Steps() int { return ip.steps }
@@ -1699,6 +1701,7 @@ func (ip *Interp) builtin(act *activation, st *State, site ssa.CallInstruction, 
 		return v.reduce(), true
 	case "copy":
 		dst, _ := args[0].(*Slice)
+		ip.storeEpoch++
 		ev := ip.event(Event{Kind: "copy", Args: args, Instr: site, Guards: ip.Guards(st), GuardL: ip.GuardList(st)})
 		hi := uint64(1 << 40)
 		if dst != nil && dst.Len.Hi < hi {
